@@ -140,6 +140,9 @@ def rule_check(sc, r):
                     vals.add(0)
                 elif f.get("ttl") and (f.get("lock") or {}).get("async"):
                     st[("asynclock", e.get("client"), sf["start"])] = f["lock"].get("min_commit", 0)
+                    if not f["lock"].get("secondaries"):
+                        # an async-commit primary without secondaries is decided by its own min-commit ts
+                        vals.add(f["lock"].get("min_commit", 0))
             elif cmd == "CheckSecondaryLocks":
                 key = ("status", e.get("client"), sf["start"])
                 vals = st.setdefault(key, set())
@@ -282,6 +285,9 @@ def main(tier, replay):
     cov.update(run_acceptor(traces, v, PID, exe=exe))
     if not gate["ok"]:
         v.violation({"kind": "proof", "theorem_or_file": gate["problems"], "what": "Coq obligations no longer check"}, has_input=False)
+    elif tier == "thorough":
+        from perc_gate import thorough_coqchk
+        thorough_coqchk("Verif.Percolator.Props", cov, v)
     cov.update(evaluations=len(allsc), distinct_nontrivial=len(distinct),
                rule="shapes with 1-6 keys over 1-4 regions x {2pc, async, 1pc} x {optimistic, pessimistic} x commit batch size {default, 20 bytes} x one region error (EpochNotMatch / NotLeader / ServerIsBusy) or split or lost response at every prewrite/commit index (batches are re-split), plus pessimistic transactions kept open with a small managed ttl (heart-beats); every trace is judged by the extracted acceptor and by independent python rule predicates incl. the mutation table; distinct non-trivial = scenarios with >= 3 prewrite/commit requests or heart-beats",
                samples=[{"scenario": sc, "told": r.get("told")} for sc, r in traces[len(probes):len(probes) + 2]] + [{"scenario": hb[0]}], input_distribution=dist)
